@@ -52,6 +52,7 @@ func (fc *FnCtx) prelude() string {
 func (g *Gen) verifyFunction(fn *ssa.Function, sp *FuncSpec) *FnCtx {
 	fc := g.newFnCtx(fn, sp)
 	fc.computeAnc(fn)
+	fc.computeSiteOrdinals(fn)
 	fr := fc.newFrame(fn, nil)
 	fr.isTop = true
 	fr.params = map[string]Val{}
@@ -122,6 +123,42 @@ func (g *Gen) verifyFunction(fn *ssa.Function, sp *FuncSpec) *FnCtx {
 			res = append(res, fr.nameVal(fr.mergeVals(sig.Results().At(i).Type(), vs, conds), fmt.Sprintf("ret%d", i)))
 		}
 		r := retInfo{block: nil, seq: 1 << 30, guard: exitG, res: res, state: exitSt}
+		// ghost assignments performed at return (specification-only state)
+		if len(sp.GhostSets) > 0 {
+			genv := fr.specEnv(r.state, nil, nil)
+			for i, v := range res {
+				genv.names[fmt.Sprintf("result%d", i)] = v
+				if i < len(rnames) && rnames[i] != "" && rnames[i] != "_" {
+					genv.names[rnames[i]] = v
+				}
+			}
+			if len(res) == 1 {
+				genv.names["result"] = res[0]
+			}
+			for _, gs := range sp.GhostSets {
+				ke, err1 := parseSExpr(gs[1])
+				ve, err2 := parseSExpr(gs[2])
+				if err1 != nil || err2 != nil {
+					fc.errs = append(fc.errs, "ghostset: cannot parse "+gs[0])
+					continue
+				}
+				names := fc.g.modEntryNames(fc, sp, "ghost "+gs[0])
+				if len(names) != 1 {
+					continue
+				}
+				kv := genv.with(r.state).tr(ke)
+				k := kv.S
+				if kindOf(kv.T) == KIface {
+					k = kv.Sub[1].S
+				}
+				vv := genv.with(r.state).tr(ve)
+				if vv.Untyped {
+					vv = genv.coerce(vv, tInt)
+				}
+				r.state = r.state.store(names[0], sx("store", r.state.get(names[0]), k, vv.S))
+				genv.state = r.state
+			}
+		}
 		fc.exit = &r
 		renv := fr.specEnv(r.state, nil, nil)
 		renv.lookup = func(n string, st *State) (Val, bool) { return fr.lookupExitLocal(n, st) }
@@ -136,7 +173,7 @@ func (g *Gen) verifyFunction(fn *ssa.Function, sp *FuncSpec) *FnCtx {
 		}
 		suffix := ""
 		for _, c := range sp.Ensures {
-			if !fc.modeOK(c) {
+			if !fc.modeOK(c) || c.GhostDef {
 				continue
 			}
 			if c.Expr.Op == "call" && c.Expr.Name == "clean" && len(c.Expr.Args) == 1 {
@@ -241,6 +278,12 @@ func (g *Gen) verifyFunction(fn *ssa.Function, sp *FuncSpec) *FnCtx {
 		if fc.exit != nil {
 			fc.addObligAt(&Oblig{Name: sp.Name + "/cover:return", Kind: "cover", Cover: true, goal: fc.exit.guard, Tags: sp.allTags(), Text: "a return is reachable under the assumptions"}, nil, 1<<30)
 		}
+	}
+	for _, c := range sp.Assumes {
+		if !c.bound {
+			fc.errs = append(fc.errs, fmt.Sprintf("%s: call-site assumption %q does not bind to a call (site %s)", sp.Name, c.Text, c.Site))
+		}
+		c.bound = false
 	}
 	for _, c := range sp.Asserts {
 		if !c.bound && fc.modeOK(c) {
